@@ -85,7 +85,7 @@ fn nth_perm(n: usize, mut k: usize) -> Vec<usize> {
 impl<C: Suite> M06<C> {
     pub fn new(tier: Tier, _seed: u64) -> Self {
         // beyond 64 signers: the block sizes of batched pairing code (64, 128) and the 7 / 8 bit boundaries
-        let ns: Vec<usize> = if tier.thorough() { (2..=NMAX).chain([65, 127, 128, 129, 255, 256, 257]).collect() } else { vec![2, 3, 4, 5, 8, 16, 17, 63, 64, 65, 127, 128, 129, 256, 257] };
+        let ns: Vec<usize> = if tier.thorough() { (2..=NMAX).chain([65, 127, 128, 129, 255, 256, 257]).collect() } else { vec![2, 3, 4, 5, 8, 16, 17, 63, 64, 65, 128, 129, 257] };
         let nk = ns.iter().max().unwrap() + 1;
         let sks: Vec<SecretKey<C>> = (0..nk).map(|i| SecretKey::<C>::from_hash(format!("c06-key-{}", i))).collect();
         let pks = sks.iter().map(|s| s.public_key()).collect();
